@@ -572,7 +572,7 @@ func (c *Compiler) compileAssign(
 			s = s.Original
 		}
 	case ScopeGlobal:
-		c.emit(node, OpSetGlobal, symbol.Index)
+		c.emit(node, OpSetGlobal, c.globalIndex(symbol))
 		symbol.Assigned = true
 	default:
 		return c.error(node, unresolvedRefError(ident))
@@ -610,7 +610,7 @@ func (c *Compiler) compileDefineAssign(
 	case ScopeFree:
 		c.emit(node, OpGetFree, symbol.Index)
 	case ScopeGlobal:
-		c.emit(node, OpGetGlobal, symbol.Index)
+		c.emit(node, OpGetGlobal, c.globalIndex(symbol))
 	default:
 		return c.errorf(node, "unexpected scope %q for symbol %q",
 			symbol.Scope, ident)
@@ -1230,7 +1230,7 @@ func (c *Compiler) compileIdent(node *parser.Ident) error {
 
 	switch symbol.Scope {
 	case ScopeGlobal:
-		c.emit(node, OpGetGlobal, symbol.Index)
+		c.emit(node, OpGetGlobal, c.globalIndex(symbol))
 	case ScopeLocal:
 		c.emit(node, OpGetLocal, symbol.Index)
 	case ScopeBuiltin:
